@@ -1,6 +1,7 @@
 package props
 
 import (
+	"golibcheck/internal/core"
 	"go/ast"
 	"go/token"
 	"go/types"
@@ -378,6 +379,175 @@ func (h *hmapType) checkNoBlindReject() {
 				return true
 			})
 		}
+		if bad == "" {
+			bad = h.blindSummaryReject(fi, param)
+		}
 		h.r.Check(bad == "", h.pre+".key-domain", h.name+"."+fi.Obj.Name()+" looks before it answers", h.p.Pos(fi.Decl.Pos()), "no negative answer from a comparison with a marker of the collection", bad)
 	}
+}
+
+// blindSummaryReject: a Contains* method that answers "no" from a comparison of a measure of the
+// probe (len(key), key itself) with a field the collection updates as elements come in (a summary
+// kept beside the table: longest key, largest element) is right only if no stored element can satisfy
+// the comparison. The one shape accepted: the insertion side keeps a running maximum
+// `if M(k) > x.f { x.f = M(k) }` and the lookup rejects on exactly `M(k) > x.f` (strictly: an element
+// as large as the maximum is stored). Anything else is reported.
+func (h *hmapType) blindSummaryReject(fi *core.FuncInfo, param types.Object) string {
+	info := fi.Pkg.TypesInfo
+	rn := recvName(fi)
+	// fields assigned outside constructors
+	mutable := map[string]bool{}
+	maxOf := map[string]string{} // field -> normalised measure it is the running maximum of
+	for _, m := range h.p.MethodsOf(h.t) {
+		if m.Decl.Body == nil {
+			continue
+		}
+		mi := m.Pkg.TypesInfo
+		mrn := recvName(m)
+		params := map[types.Object]bool{}
+		for _, f := range m.Decl.Type.Params.List {
+			for _, nm := range f.Names {
+				params[mi.Defs[nm]] = true
+			}
+		}
+		normM := func(e ast.Expr) (string, bool) {
+			uses := false
+			ast.Inspect(e, func(n ast.Node) bool {
+				if id, ok := n.(*ast.Ident); ok && params[mi.ObjectOf(id)] {
+					uses = true
+				}
+				return true
+			})
+			txt := stripSpaces(types.ExprString(e))
+			for po := range params {
+				if po != nil {
+					txt = replaceIdent(txt, po.Name(), "$k")
+				}
+			}
+			return txt, uses
+		}
+		fieldOf := func(e ast.Expr) string {
+			if sel, ok := ast.Unparen(e).(*ast.SelectorExpr); ok {
+				if rid, ok := ast.Unparen(sel.X).(*ast.Ident); ok && rid.Name == mrn {
+					return sel.Sel.Name
+				}
+			}
+			return ""
+		}
+		ast.Inspect(m.Decl.Body, func(n ast.Node) bool {
+			switch x := n.(type) {
+			case *ast.AssignStmt:
+				for _, l := range x.Lhs {
+					if f := fieldOf(l); f != "" {
+						mutable[f] = true
+					}
+				}
+			case *ast.IncDecStmt:
+				if f := fieldOf(x.X); f != "" {
+					mutable[f] = true
+				}
+			case *ast.IfStmt:
+				be, ok := ast.Unparen(x.Cond).(*ast.BinaryExpr)
+				if !ok || x.Else != nil || len(x.Body.List) != 1 {
+					return true
+				}
+				as, ok := x.Body.List[0].(*ast.AssignStmt)
+				if !ok || len(as.Lhs) != 1 || len(as.Rhs) != 1 || as.Tok != token.ASSIGN {
+					return true
+				}
+				var meas ast.Expr
+				f := ""
+				switch be.Op {
+				case token.GTR:
+					meas, f = be.X, fieldOf(be.Y)
+				case token.LSS:
+					meas, f = be.Y, fieldOf(be.X)
+				}
+				if f == "" || fieldOf(as.Lhs[0]) != f {
+					return true
+				}
+				a, uses := normM(meas)
+				b, _ := normM(as.Rhs[0])
+				if uses && a == b {
+					maxOf[f] = a
+				}
+			}
+			return true
+		})
+	}
+	bad := ""
+	for _, st := range fi.Decl.Body.List {
+		if _, isLoop := st.(*ast.ForStmt); isLoop {
+			break
+		}
+		if _, isLoop := st.(*ast.RangeStmt); isLoop {
+			break
+		}
+		ifs, ok := st.(*ast.IfStmt)
+		if !ok || len(ifs.Body.List) == 0 {
+			continue
+		}
+		rs, ok := ifs.Body.List[len(ifs.Body.List)-1].(*ast.ReturnStmt)
+		if !ok || len(rs.Results) != 1 {
+			continue
+		}
+		if tv, ok := info.Types[rs.Results[0]]; !ok || tv.Value == nil || tv.Value.ExactString() != "false" {
+			continue
+		}
+		ast.Inspect(ifs.Cond, func(m ast.Node) bool {
+			be, ok := m.(*ast.BinaryExpr)
+			if !ok {
+				return true
+			}
+			switch be.Op {
+			case token.GTR, token.GEQ, token.LSS, token.LEQ, token.EQL, token.NEQ:
+			default:
+				return true
+			}
+			for _, pr := range [][2]ast.Expr{{be.X, be.Y}, {be.Y, be.X}} {
+				usesParam := false
+				ast.Inspect(pr[0], func(k ast.Node) bool {
+					if id, ok := k.(*ast.Ident); ok && info.ObjectOf(id) == param {
+						usesParam = true
+					}
+					return true
+				})
+				sel, ok := ast.Unparen(pr[1]).(*ast.SelectorExpr)
+				if !usesParam || !ok {
+					continue
+				}
+				rid, ok := ast.Unparen(sel.X).(*ast.Ident)
+				if !ok || rid.Name != rn || !mutable[sel.Sel.Name] {
+					continue
+				}
+				meas := replaceIdent(stripSpaces(types.ExprString(pr[0])), param.Name(), "$k")
+				strictAbove := (be.Op == token.GTR && pr[0] == be.X) || (be.Op == token.LSS && pr[0] == be.Y)
+				if want, tracked := maxOf[sel.Sel.Name]; tracked && want == meas && strictAbove {
+					continue
+				}
+				bad = "answers false at " + h.p.Pos(rs.Pos()) + " because " + types.ExprString(be) + ", a comparison with the summary field " + sel.Sel.Name + " kept beside the table, without looking: only `measure > running maximum` rules a stored element out (an element equal to the maximum is stored)"
+			}
+			return true
+		})
+	}
+	return bad
+}
+
+// replaceIdent replaces whole-word occurrences of name in s.
+func replaceIdent(s, name, by string) string {
+	if name == "" {
+		return s
+	}
+	isW := func(c byte) bool { return c == '_' || (c >= '0' && c <= '9') || (c >= 'a' && c <= 'z') || (c >= 'A' && c <= 'Z') }
+	out := ""
+	for i := 0; i < len(s); {
+		if strings.HasPrefix(s[i:], name) && (i == 0 || !isW(s[i-1])) && (i+len(name) >= len(s) || !isW(s[i+len(name)])) {
+			out += by
+			i += len(name)
+			continue
+		}
+		out += s[i : i+1]
+		i++
+	}
+	return out
 }
